@@ -52,7 +52,7 @@ def dstep (s : DState) (toks : List String) : DState × String :=
     | some n => (s, s!"ok {sanitizeQueue s.lim n}")
     | none => (s, "bad-op")
   | [op, x, n] =>
-    if op = "item" ∨ op = "mitem" then
+    if op = "item" ∨ op = "mitem" ∨ op = "moditem" ∨ op = "mmitem" then
       match parseF? x, n.toNat? with
       | some x, some n => (s, s!"ok {showF (sanitizeSampling s.lim x)} {sanitizeQueue s.lim n}")
       | _, _ => (s, "bad-op")
